@@ -11,6 +11,15 @@ CHECKS = {
  "C05": ("exploration", "bounded-exhaustive enumeration of programs and fact orders on the real engine vs. reference least-fixpoint evaluator",
          "Every rule with 1-2 body atoms over the 25-atom DL-small alphabet (3-atom bodies over 8 atoms), several head shapes, with/without an equality expression, is queried against every ordered list of up to 3-4 distinct ground facts in 15 constant domains (all term types, type-confusable pairs, set presentations); every single rule and ordered rule pair of a recursive alphabet is run to fixpoint on every subset of a 9-fact universe in two insertion orders. Results are compared as sets with an independent recursive-substitution evaluator. The space is finite and fully enumerated.",
          "Trusted: internal/refdl (naive least fixpoint), internal/refexpr. Programs with 4+ body atoms, 3+ rules or arity>2 are outside the scope.", "DESIGN.md §4-C05", "ssx"),
+ "C04": ("exploration", "bounded-exhaustive enumeration of authorization scenarios on the real authorizer vs. reference decision procedure",
+         "Four full products of small scenario alphabets (policy lists x truth assignments x check modes; checks per source x fact placement; fact placement x placed rules x probe checks; shared strings x expression kinds x check location) are authorized by the library and the outcome class (and the failed-check list) is compared with an independent implementation of the stated decision procedure over a reference least-fixpoint evaluator.",
+         "Trusted: internal/refdl.Decide and internal/refexpr. Only the stated fragment is generated (ground facts, range-restricted rules, error-free or uniformly failing expressions). Scenarios with 3+ rules, 3+ blocks or policy lists longer than 3 are outside the scope.", "DESIGN.md §4-C04", "ssx"),
+ "C02": ("exploration", "bounded-exhaustive differential enumeration (token, appended block, authorizer) on the real authorizer",
+         "Every triple of a product of authority contents x appended blocks (all <=2-subsets of a 19-item adversarial alphabet) x authorizer contents with ordered policy lists is authorized twice, with and without the appended block; T+B accepted while T is refused is a violation. The product is finite and fully enumerated.",
+         "Differential oracle, no reference model. Blocks with 3+ items and policy lists longer than 2 are outside the scope. Signature checking is C01.", "DESIGN.md §4-C02", "ssx"),
+ "C03": ("exploration", "bounded-exhaustive differential enumeration of token variants (block content kept/removed/check-free/emptied/swapped) on the real authorizer",
+         "For every block content X (<=2 of 16 fact/rule items), block position, 1-2 probes in every location (authorizer check, authority check, other block's check, allow/deny policy), the token variants with and without X and with the two blocks swapped are authorized and queried; outcome class, failed checks outside the block and a 6-rule Query panel (before and after Authorize) must coincide. The visibility of authority-level facts in blocks is decided by C04's S3 scope against the reference.",
+         "Differential oracle. The failed-check list is parsed from the error text. Tokens with 3+ later blocks are outside the scope.", "DESIGN.md §4-C03", "ssx"),
 }
 PENDING = "check not built yet in this revision (work in progress; see DESIGN.md §4 for the planned bounded-exhaustive check)"
 def main():
